@@ -95,8 +95,7 @@ def handleC01 (args impl : List String) : Option String :=
         else if !(OH.Spec.tilesFrom 0 rs) then some s!"fail tiling model={joinSp m}"
         else match OH.Spec.c01Mismatch ctx e d rs with
           | some mm =>
-            let cls := if OH.Spec.exprBigShift e then " class=dated-offset-beyond-calendar" else ""
-            some s!"fail spec{cls} minute={mm} spec={kindTok (OH.Spec.dayState ctx e d mm)} model={joinSp m}"
+            some s!"fail spec minute={mm} spec={kindTok (OH.Spec.dayState ctx e d mm)} model={joinSp m}"
           | none =>
             if sameOut m res then
               some ("ok " ++ (match res with | ["1", _, _, "c"] => "allclosed" | _ => exprTag e))
